@@ -40,6 +40,8 @@ def insert_into(
     dist: int,
     insert: Fragment,
     parent: Optional["Node"],
+    open_start: int = 0,
+    open_end: int = 0,
 ) -> Fragment | None:
     a = content.find_index(dist)
     index, offset = a["index"], a["offset"]
@@ -49,7 +51,19 @@ def insert_into(
             return None
         return content.cut(0, dist).append(insert).append(content.cut(dist))
     assert child
-    inner = insert_into(child.content, dist - offset - 1, insert, None)
+    # A child on an open side of the slice is only partly present; its content is
+    # validated when the slice is placed (replace closes every joined node). A child
+    # that is complete in the slice must itself be able to hold the inserted content.
+    at_open_start = open_start > 0 and index == 0
+    at_open_end = open_end > 0 and index == content.child_count - 1
+    inner = insert_into(
+        child.content,
+        dist - offset - 1,
+        insert,
+        None if at_open_start or at_open_end else child,
+        open_start - 1 if at_open_start else 0,
+        open_end - 1 if at_open_end else 0,
+    )
     if inner:
         return content.replace_child(index, child.copy(inner))
     return None
@@ -68,7 +82,14 @@ class Slice:
         return self.content.size - self.open_start - self.open_end
 
     def insert_at(self, pos: int, fragment: Fragment) -> Optional["Slice"]:
-        content = insert_into(self.content, pos + self.open_start, fragment, None)
+        content = insert_into(
+            self.content,
+            pos + self.open_start,
+            fragment,
+            None,
+            self.open_start,
+            self.open_end,
+        )
         if content:
             return Slice(content, self.open_start, self.open_end)
         return None
